@@ -297,6 +297,11 @@ def lex(src):
                     if j < n and src[j] in b'+-':
                         j += 1
                     continue
+                if d == 46 and j + 1 < n and src[j + 1] == 46:
+                    # PICO-8 rule of the dialect (picotool's decimal pattern carries it as '(?!\.)', its hex/binary
+                    # patterns by requiring a digit after the point): a numeral never swallows the concatenation
+                    # operator, so '1..x' and '0x10..x' are numeral, '..', name
+                    break
                 if is_xdigit(d) or d == 46:
                     j += 1
                 else:
